@@ -116,7 +116,11 @@ def _run(case):
         else:
             clause = "C16.regression_orthogonal"
             r = float(np.max(np.abs(W.T.dot(E)))) / (EPS * kap * scale * math.sqrt(k_))
-        ktol = KTOL * (10.0 if k_ < n + 1 else 1.0)     # under-determined fits: minimum-norm solve, one more order of slack
+        # under-determined fits: minimum-norm solve, one more order of slack; regression: normal-equation residual, x3
+        ktol = KTOL * (10.0 if k_ < n + 1 else 3.0 if k_ > n + 1 else 1.0)
+        # model values are formed as J*y + const with y relative to the base point: when the points sit far from the base
+        # compared with their spread (possible only after a shift by something other than xopt) that sum cancels
+        ktol *= 1.0 + float(np.max(np.abs(Y))) / dmax
         res.margin(clause, r / ktol)
         if not (r <= ktol):
             res.fail(clause, "step %d %s: %d points in R^%d, residual/(eps*kappa*scale)=%.3g (kappa=%.3g)" % (step, tag, k_, n, r, kap))
@@ -165,9 +169,11 @@ def _run(case):
             else:
                 Ynew = Y.copy()
                 Ynew[k] = cand
-            Wn, _ = design(Ynew, Ynew[mdl.kopt] if mdl.kopt < len(Ynew) else Ynew[0])
+            Wn, dnew = design(Ynew, Ynew[mdl.kopt] if mdl.kopt < len(Ynew) else Ynew[0])
             sv = np.linalg.svd(Wn, compute_uv=False)
-            if len(Ynew) >= 2 and (sv[min(Wn.shape) - 1] <= 0 or sv[0] / sv[min(Wn.shape) - 1] > 1e6):
+            # affinely independent *at the scale of the problem*: the scaled design matrix hides a set whose points all
+            # coincide to rounding (its normalisation divides by their spread), so the spread itself is bounded below too
+            if len(Ynew) >= 2 and (dnew < 1e-4 * spread or sv[min(Wn.shape) - 1] <= 0 or sv[0] / sv[min(Wn.shape) - 1] > 1e6):
                 flags["skipped"] += 1
                 continue
             nev += 1
